@@ -13,7 +13,7 @@ structure T2Data where
   title : Str := []
   simulator : Str := []
   rocks : List Rock := []
-  parameter : Dict := Gen.Sections.defaultParameter.filter (fun p => p.1 != k "_option_str")
+  parameter : Dict := Gen.Sections.defaultParameter.filter (fun p => p.1 != c!"_option_str")
   option : List Int := List.replicate Gen.Sections.numOptions 0
   timestep : List Val := []
   defaultIncons : List Val := []
@@ -54,29 +54,29 @@ def allSections : List Str := Gen.Sections.sections
 
 /-- `present_sections` -/
 def T2Data.present (d : T2Data) (kw : Str) : Bool :=
-  if kw == k "SIMUL" then !d.simulator.isEmpty
-  else if kw == k "ROCKS" then !d.rocks.isEmpty
-  else if kw == k "PARAM" then !d.parameter.isEmpty || true     -- the dict also holds option, timestep, default_incons
-  else if kw == k "MOMOP" then d.moreOption.any (· != 0)
-  else if kw == k "START" then d.start
-  else if kw == k "NOVER" then d.noversion
-  else if kw == k "RPCAP" then d.rpcap.rp.isSome || d.rpcap.cp.isSome
-  else if kw == k "LINEQ" then !d.lineq.isEmpty
-  else if kw == k "SOLVR" then !d.solver.isEmpty
-  else if kw == k "MULTI" then !d.multi.isEmpty
-  else if kw == k "TIMES" then !d.outputTimes.isEmpty
-  else if kw == k "SELEC" then d.selection.isSome
-  else if kw == k "DIFFU" then !d.diffusion.isEmpty
-  else if kw == k "ELEME" then true                               -- a t2grid object is always true
-  else if kw == k "CONNE" then true
-  else if kw == k "MESHM" then !d.meshmaker.isEmpty
-  else if kw == k "GENER" then !d.gens.isEmpty
-  else if kw == k "SHORT" then !d.short.isEmpty
-  else if kw == k "FOFT" then !d.historyBlock.isEmpty
-  else if kw == k "COFT" then !d.historyConn.isEmpty
-  else if kw == k "GOFT" then !d.historyGen.isEmpty
-  else if kw == k "INCON" then !d.incon.isEmpty
-  else if kw == k "INDOM" then !d.indom.isEmpty
+  if kw == c!"SIMUL" then !d.simulator.isEmpty
+  else if kw == c!"ROCKS" then !d.rocks.isEmpty
+  else if kw == c!"PARAM" then !d.parameter.isEmpty || true     -- the dict also holds option, timestep, default_incons
+  else if kw == c!"MOMOP" then d.moreOption.any (· != 0)
+  else if kw == c!"START" then d.start
+  else if kw == c!"NOVER" then d.noversion
+  else if kw == c!"RPCAP" then d.rpcap.rp.isSome || d.rpcap.cp.isSome
+  else if kw == c!"LINEQ" then !d.lineq.isEmpty
+  else if kw == c!"SOLVR" then !d.solver.isEmpty
+  else if kw == c!"MULTI" then !d.multi.isEmpty
+  else if kw == c!"TIMES" then !d.outputTimes.isEmpty
+  else if kw == c!"SELEC" then d.selection.isSome
+  else if kw == c!"DIFFU" then !d.diffusion.isEmpty
+  else if kw == c!"ELEME" then true                               -- a t2grid object is always true
+  else if kw == c!"CONNE" then true
+  else if kw == c!"MESHM" then !d.meshmaker.isEmpty
+  else if kw == c!"GENER" then !d.gens.isEmpty
+  else if kw == c!"SHORT" then !d.short.isEmpty
+  else if kw == c!"FOFT" then !d.historyBlock.isEmpty
+  else if kw == c!"COFT" then !d.historyConn.isEmpty
+  else if kw == c!"GOFT" then !d.historyGen.isEmpty
+  else if kw == c!"INCON" then !d.incon.isEmpty
+  else if kw == c!"INDOM" then !d.indom.isEmpty
   else false
 
 def presentSections (d : T2Data) : List Str := allSections.filter d.present
@@ -123,13 +123,13 @@ def T2Data.updateSections (d : T2Data) : T2Data :=
 /-! ### PARAM, MOMOP -/
 
 def param1Rec (T : Tabs) (d : T2Data) : Except Exc Rec :=
-  T.get (if d.autough2 then "param1_autough2" else "param1")
+  T.get (if d.autough2 then c!"param1_autough2" else c!"param1")
 
 def multiRec (T : Tabs) (d : T2Data) : Except Exc Rec :=
-  T.get (if d.autough2 then "multi_autough2" else "multi")
+  T.get (if d.autough2 then c!"multi_autough2" else c!"multi")
 
 def constTimestep (d : Dict) : Except Exc Rat :=
-  match d.get (k "const_timestep") with
+  match d.get (c!"const_timestep") with
   | none => .error .keyError
   | some v => match v.rat? with | some r => .ok r | none => .error .typeError
 
@@ -138,55 +138,55 @@ def timestepLines (c : Rat) : Nat := ((-c).floor).toNat
 
 /-- `write_parameters` -/
 def writeParameters (T : Tabs) (d : T2Data) : Except Exc (List Str) := do
-  let dict1 := d.parameter.set (k "_option_str") (.str (digitsOfOptions d.option))
-  let paramw ← match dict1.get (k "print_block") with
-    | some (.str s) => pure (dict1.set (k "print_block") (.str (unfixBlockname s)))
+  let dict1 := d.parameter.set (c!"_option_str") (.str (digitsOfOptions d.option))
+  let paramw ← match dict1.get (c!"print_block") with
+    | some (.str s) => pure (dict1.set (c!"print_block") (.str (unfixBlockname s)))
     | some .none => pure dict1
     | none => .error .keyError
     | some _ => .error .typeError
   let l1 ← writeValueLine (← param1Rec T d) dict1
-  let l2 ← writeValueLine (← T.get "param2") paramw
+  let l2 ← writeValueLine (← T.get c!"param2") paramw
   let c ← constTimestep dict1
-  let ts ← if c < 0 then writeChunks (← T.get "timestep") 8 d.timestep d.timestep.length (timestepLines c) else pure []
-  let l3 ← writeValueLine (← T.get "param3") dict1
+  let ts ← if c < 0 then writeChunks (← T.get c!"timestep") 8 d.timestep d.timestep.length (timestepLines c) else pure []
+  let l3 ← writeValueLine (← T.get c!"param3") dict1
   let n := d.defaultIncons.length
-  let di ← if n > 0 then writeChunks (← T.get "default_incons") 4 d.defaultIncons n ((n + 3) / 4) else pure [nl []]
-  pure ([nl (k "PARAM"), l1, l2] ++ ts ++ [l3] ++ di)
+  let di ← if n > 0 then writeChunks (← T.get c!"default_incons") 4 d.defaultIncons n ((n + 3) / 4) else pure [nl []]
+  pure ([nl (c!"PARAM"), l1, l2] ++ ts ++ [l3] ++ di)
 
 /-- `read_parameters`; returns the line it read ahead (a section keyword line, padded), if any -/
 def readParameters (rf : ReadFn) (T : Tabs) (d : T2Data) (ls : List Str) : Except Exc (T2Data × Option Str × List Str) := do
   let (l1, r1) := readline ls
-  let p ← readValueLine rf (← param1Rec T d) (d.parameter.set (k "_option_str") (.str (digitsOfOptions d.option))) l1
-  let ostr ← match p.get (k "_option_str") with | some v => v.str? | none => .error .keyError
+  let p ← readValueLine rf (← param1Rec T d) (d.parameter.set (c!"_option_str") (.str (digitsOfOptions d.option))) l1
+  let ostr ← match p.get (c!"_option_str") with | some v => v.str? | none => .error .keyError
   let option ← optionsOfStr ostr 24
-  let p := p.filter (fun e => e.1 != k "_option_str")
+  let p := p.filter (fun e => e.1 != c!"_option_str")
   let (l2, r2) := readline r1
-  let p ← readValueLine rf (← T.get "param2") p l2
-  let p ← match p.get (k "print_block") with
-    | some (.str s) => pure (if isBlank s then p.set (k "print_block") .none else p)
+  let p ← readValueLine rf (← T.get c!"param2") p l2
+  let p ← match p.get (c!"print_block") with
+    | some (.str s) => pure (if isBlank s then p.set (c!"print_block") .none else p)
     | some .none => pure p
     | none => .error .keyError
     | some _ => .error .generic           -- AttributeError: a number has no strip()
   let c ← constTimestep p
-  let (timestep, r3) ← if c ≥ 0 then pure ([(p.get (k "const_timestep")).getD .none], r2) else do
-      let (vs, r) ← readChunks rf (← T.get "timestep") (timestepLines c) r2
+  let (timestep, r3) ← if c ≥ 0 then pure ([(p.get (c!"const_timestep")).getD .none], r2) else do
+      let (vs, r) ← readChunks rf (← T.get c!"timestep") (timestepLines c) r2
       pure (nonNone vs, r)
   let (l3, r4) := readline r3
-  let p ← readValueLine rf (← T.get "param3") p l3
+  let p ← readValueLine rf (← T.get c!"param3") p l3
   let (l4, r5) := readline r4
-  let di ← readValues rf (← T.get "default_incons") l4
+  let di ← readValues rf (← T.get c!"default_incons") l4
   let di := trimTrailingNones (d.defaultIncons ++ di)
-  let (more, nxt, r6) ← untilKeyword rf (← T.get "default_incons") (allSections ++ [k "ENDCY", k "ENDFI"]) r5
+  let (more, nxt, r6) ← untilKeyword rf (← T.get c!"default_incons") (allSections ++ [c!"ENDCY", c!"ENDFI"]) r5
   pure ({ d with parameter := p, option, timestep, defaultIncons := di ++ more }, nxt, r6)
 
 def writeMoreOptions (T : Tabs) (d : T2Data) : Except Exc (List Str) := do
-  let l ← writeValueLine (← T.get "_more_option_str") [(k "_more_option_str", .str (digitsOfOptions d.moreOption))]
-  pure [nl (k "MOMOP"), l]
+  let l ← writeValueLine (← T.get c!"_more_option_str") [(c!"_more_option_str", .str (digitsOfOptions d.moreOption))]
+  pure [nl (c!"MOMOP"), l]
 
 def readMoreOptions (rf : ReadFn) (T : Tabs) (d : T2Data) (ls : List Str) : Except Exc (T2Data × List Str) := do
   let (l, rest) := readline ls
-  let e ← readValueLine rf (← T.get "_more_option_str") [] l
-  let s ← match e.get (k "_more_option_str") with | some v => v.str? | none => .error .generic
+  let e ← readValueLine rf (← T.get c!"_more_option_str") [] l
+  let s ← match e.get (c!"_more_option_str") with | some v => v.str? | none => .error .generic
   pure ({ d with moreOption := ← optionsOfStr s 21 }, rest)
 
 /-! ### writing -/
@@ -209,29 +209,29 @@ structure Files where
 
 /-- `write_fn[keyword](outfile)` -/
 def writeSection (T : Tabs) (d : T2Data) (kw : Str) : Except Exc (List Str) :=
-  if kw == k "SIMUL" then .ok (if d.simulator.isEmpty then [] else [nl (k "SIMUL"), nl (strip d.simulator)])
-  else if kw == k "ROCKS" then writeRocks T d.rocks
-  else if kw == k "PARAM" then writeParameters T d
-  else if kw == k "MOMOP" then writeMoreOptions T d
-  else if kw == k "START" then .ok (if d.start then [nl (k "START")] else [])
-  else if kw == k "NOVER" then .ok (if d.noversion then [nl (k "NOVER")] else [])
-  else if kw == k "RPCAP" then writeRPCap T d.rpcap
-  else if kw == k "LINEQ" then writeDictSection T "LINEQ" "lineq" d.lineq
-  else if kw == k "SOLVR" then writeDictSection T "SOLVR" "solver" d.solver
-  else if kw == k "MULTI" then writeDictSection T "MULTI" (if d.autough2 then "multi_autough2" else "multi") d.multi
-  else if kw == k "TIMES" then writeTimes T d.outputTimes
-  else if kw == k "SELEC" then writeSelection T d.selection
-  else if kw == k "DIFFU" then writeDiffusion T d.diffusion
-  else if kw == k "ELEME" then writeBlocks T d.blocks
-  else if kw == k "CONNE" then writeConns T d.conns
-  else if kw == k "MESHM" then writeMeshMaker T d.meshmaker
-  else if kw == k "GENER" then writeGeners T d.gens
-  else if kw == k "SHORT" then writeShort d.short
-  else if kw == k "FOFT" then .ok (writeHistoryBlocks "FOFT" d.historyBlock)
-  else if kw == k "COFT" then .ok (writeHistoryConns d.historyConn)
-  else if kw == k "GOFT" then .ok (writeHistoryBlocks "GOFT" d.historyGen)
-  else if kw == k "INCON" then writeIncons T d.blocks d.incon
-  else if kw == k "INDOM" then writeIndom T d.indom
+  if kw == c!"SIMUL" then .ok (if d.simulator.isEmpty then [] else [nl (c!"SIMUL"), nl (strip d.simulator)])
+  else if kw == c!"ROCKS" then writeRocks T d.rocks
+  else if kw == c!"PARAM" then writeParameters T d
+  else if kw == c!"MOMOP" then writeMoreOptions T d
+  else if kw == c!"START" then .ok (if d.start then [nl (c!"START")] else [])
+  else if kw == c!"NOVER" then .ok (if d.noversion then [nl (c!"NOVER")] else [])
+  else if kw == c!"RPCAP" then writeRPCap T d.rpcap
+  else if kw == c!"LINEQ" then writeDictSection T c!"LINEQ" c!"lineq" d.lineq
+  else if kw == c!"SOLVR" then writeDictSection T c!"SOLVR" c!"solver" d.solver
+  else if kw == c!"MULTI" then writeDictSection T c!"MULTI" (if d.autough2 then c!"multi_autough2" else c!"multi") d.multi
+  else if kw == c!"TIMES" then writeTimes T d.outputTimes
+  else if kw == c!"SELEC" then writeSelection T d.selection
+  else if kw == c!"DIFFU" then writeDiffusion T d.diffusion
+  else if kw == c!"ELEME" then writeBlocks T d.blocks
+  else if kw == c!"CONNE" then writeConns T d.conns
+  else if kw == c!"MESHM" then writeMeshMaker T d.meshmaker
+  else if kw == c!"GENER" then writeGeners T d.gens
+  else if kw == c!"SHORT" then writeShort d.short
+  else if kw == c!"FOFT" then .ok (writeHistoryBlocks c!"FOFT" d.historyBlock)
+  else if kw == c!"COFT" then .ok (writeHistoryConns d.historyConn)
+  else if kw == c!"GOFT" then .ok (writeHistoryBlocks c!"GOFT" d.historyGen)
+  else if kw == c!"INCON" then writeIncons T d.blocks d.incon
+  else if kw == c!"INDOM" then writeIndom T d.indom
   else .error .keyError
 
 /-- the `extra_precision` setter -/
@@ -265,7 +265,7 @@ def writeExtraPrecision (d : T2Data) (xp : Option (List Str)) (echo : Option Boo
 /-- `write(filename, meshfilename, extra_precision, echo_extra_precision)` -/
 def T2Data.write (d : T2Data) (cfg : WriteCfg) : Except Exc (T2Data × Files) := do
   let d := d.updateSections
-  let meshSections : List Str := if cfg.mesh == .infile then [] else [k "ELEME", k "CONNE"]
+  let meshSections : List Str := if cfg.mesh == .infile then [] else [c!"ELEME", c!"CONNE"]
   let mesh ← if cfg.mesh == .ascii then do
       let b ← writeBlocks mainTabs d.blocks
       let c ← writeConns mainTabs d.conns
@@ -282,11 +282,11 @@ def xpReadable (kw : Str) : Bool := Gen.Sections.xpSections.contains kw
 
 /-- the extra-precision sections that `read_extra_precision` / `read()` read with the full readers -/
 def readGridSection (rf : ReadFn) (T : Tabs) (d : T2Data) (kw : Str) (ls : List Str) : Except Exc (T2Data × List Str) :=
-  if kw == k "ROCKS" then do let (x, r) ← readRocks rf T ls; pure ({ d with rocks := x }, r)
-  else if kw == k "ELEME" then do let (x, r) ← readBlocks rf T d.rocks ls; pure ({ d with blocks := x }, r)
-  else if kw == k "CONNE" then do let (x, r) ← readConns rf T d.blocks ls; pure ({ d with conns := x }, r)
-  else if kw == k "RPCAP" then do let (x, r) ← readRPCap rf T ls; pure ({ d with rpcap := x }, r)
-  else if kw == k "GENER" then do let (x, r) ← readGeners rf T ls; pure ({ d with gens := x }, r)
+  if kw == c!"ROCKS" then do let (x, r) ← readRocks rf T ls; pure ({ d with rocks := x }, r)
+  else if kw == c!"ELEME" then do let (x, r) ← readBlocks rf T d.rocks ls; pure ({ d with blocks := x }, r)
+  else if kw == c!"CONNE" then do let (x, r) ← readConns rf T d.blocks ls; pure ({ d with conns := x }, r)
+  else if kw == c!"RPCAP" then do let (x, r) ← readRPCap rf T ls; pure ({ d with rpcap := x }, r)
+  else if kw == c!"GENER" then do let (x, r) ← readGeners rf T ls; pure ({ d with gens := x }, r)
   else .error .keyError
 
 /-- `read_extra_precision()` on the lines of the companion file -/
@@ -299,7 +299,7 @@ def readExtraPrecision (rf : ReadFn) (d : T2Data) (pdat : Option (List Str)) : E
       | _ + 1, d, [] => .ok d
       | fuel + 1, d, line :: rest =>
         let kw := keywordOf line
-        if kw == k "ENDCY" || kw == k "ENDFI" then .ok d
+        if kw == c!"ENDCY" || kw == c!"ENDFI" then .ok d
         else if xpReadable kw then
           match readGridSection rf xpTabs { d with extraPrecision := d.extraPrecision ++ [kw] } kw rest with
           | .error e => .error e
@@ -313,7 +313,7 @@ def readExtraPrecision (rf : ReadFn) (d : T2Data) (pdat : Option (List Str)) : E
 
 /-- skip functions installed for the extra-precision sections when they are not echoed -/
 def skipSection (kw : Str) (ls : List Str) : List Str :=
-  if kw == k "RPCAP" then ls.drop 2 else skipToBlank ls
+  if kw == c!"RPCAP" then ls.drop 2 else skipToBlank ls
 
 /-- `read_fn[keyword](infile)` for the main file; `line` is the keyword line itself -/
 def readSection (rf : ReadFn) (pdat : Option (List Str)) (d : T2Data) (kw line : Str) (ls : List Str) :
@@ -322,40 +322,40 @@ def readSection (rf : ReadFn) (pdat : Option (List Str)) (d : T2Data) (kw line :
   let plain (x : Except Exc (T2Data × List Str)) : Except Exc (T2Data × Option Str × List Str) :=
     match x with | .error e => .error e | .ok (d, r) => .ok (d, none, r)
   if xpReadable kw && !d.echo && d.extraPrecision.contains kw then .ok (d, none, skipSection kw ls)
-  else if kw == k "SIMUL" then
+  else if kw == c!"SIMUL" then
     let (l, rest) := readline ls
-    match readValueLine rf ⟨[k "simulator"], [{ raw := ['8', '0'], width := 80, left := false, prec := none, typ := 's' }]⟩
-            [(k "simulator", .str d.simulator)] l with
+    match readValueLine rf ⟨[c!"simulator"], [{ raw := ['8', '0'], width := 80, left := false, prec := none, typ := 's' }]⟩
+            [(c!"simulator", .str d.simulator)] l with
     | .error e => .error e
     | .ok e =>
-      match (e.get (k "simulator")).getD .none with
+      match (e.get (c!"simulator")).getD .none with
       | .str s =>
         let d := { d with simulator := s }
         if d.autough2 then (match readExtraPrecision rf d pdat with | .error e => .error e | .ok d => .ok (d, none, rest))
         else .ok (d, none, rest)
       | _ => .error .typeError
   else if xpReadable kw then plain (readGridSection rf T d kw ls)
-  else if kw == k "PARAM" then readParameters rf T d ls
-  else if kw == k "MOMOP" then plain (readMoreOptions rf T d ls)
-  else if kw == k "START" then .ok ({ d with start := true }, none, ls)
-  else if kw == k "NOVER" then .ok ({ d with noversion := true }, none, ls)
-  else if kw == k "LINEQ" then plain (do let (x, r) ← readDictSection rf T "lineq" d.lineq ls; pure ({ d with lineq := x }, r))
-  else if kw == k "SOLVR" then plain (do let (x, r) ← readDictSection rf T "solver" d.solver ls; pure ({ d with solver := x }, r))
-  else if kw == k "MULTI" then plain (do
-    let (x, r) ← readDictSection rf T (if d.autough2 then "multi_autough2" else "multi") d.multi ls
+  else if kw == c!"PARAM" then readParameters rf T d ls
+  else if kw == c!"MOMOP" then plain (readMoreOptions rf T d ls)
+  else if kw == c!"START" then .ok ({ d with start := true }, none, ls)
+  else if kw == c!"NOVER" then .ok ({ d with noversion := true }, none, ls)
+  else if kw == c!"LINEQ" then plain (do let (x, r) ← readDictSection rf T c!"lineq" d.lineq ls; pure ({ d with lineq := x }, r))
+  else if kw == c!"SOLVR" then plain (do let (x, r) ← readDictSection rf T c!"solver" d.solver ls; pure ({ d with solver := x }, r))
+  else if kw == c!"MULTI" then plain (do
+    let (x, r) ← readDictSection rf T (if d.autough2 then c!"multi_autough2" else c!"multi") d.multi ls
     pure ({ d with multi := ← stripEos x }, r))
-  else if kw == k "TIMES" then plain (do let (x, r) ← readTimes rf T d.outputTimes ls; pure ({ d with outputTimes := x }, r))
-  else if kw == k "SELEC" then plain (do let (x, r) ← readSelection rf T ls; pure ({ d with selection := some x }, r))
-  else if kw == k "DIFFU" then plain (do let (x, r) ← readDiffusion rf T d.multi d.diffusion ls; pure ({ d with diffusion := x }, r))
-  else if kw == k "MESHM" then plain (do
+  else if kw == c!"TIMES" then plain (do let (x, r) ← readTimes rf T d.outputTimes ls; pure ({ d with outputTimes := x }, r))
+  else if kw == c!"SELEC" then plain (do let (x, r) ← readSelection rf T ls; pure ({ d with selection := some x }, r))
+  else if kw == c!"DIFFU" then plain (do let (x, r) ← readDiffusion rf T d.multi d.diffusion ls; pure ({ d with diffusion := x }, r))
+  else if kw == c!"MESHM" then plain (do
     let (x, r) ← readMeshMaker rf T (ls.length + 2) d.meshmaker ls; pure ({ d with meshmaker := x }, r))
-  else if kw == k "SHORT" then plain (do
+  else if kw == c!"SHORT" then plain (do
     let (x, r) ← readShort rf T d.blocks d.conns d.gens d.short line ls; pure ({ d with short := x }, r))
-  else if kw == k "FOFT" then plain (do let (x, r) ← readHistoryBlocks d.blocks ls; pure ({ d with historyBlock := x }, r))
-  else if kw == k "COFT" then plain (do let (x, r) ← readHistoryConns d.blocks d.conns ls; pure ({ d with historyConn := x }, r))
-  else if kw == k "GOFT" then plain (do let (x, r) ← readHistoryBlocks d.blocks ls; pure ({ d with historyGen := x }, r))
-  else if kw == k "INCON" then plain (do let (x, r) ← readIncons rf T d.incon ls; pure ({ d with incon := x }, r))
-  else if kw == k "INDOM" then plain (do let (x, r) ← readIndom rf T d.indom ls; pure ({ d with indom := x }, r))
+  else if kw == c!"FOFT" then plain (do let (x, r) ← readHistoryBlocks d.blocks ls; pure ({ d with historyBlock := x }, r))
+  else if kw == c!"COFT" then plain (do let (x, r) ← readHistoryConns d.blocks d.conns ls; pure ({ d with historyConn := x }, r))
+  else if kw == c!"GOFT" then plain (do let (x, r) ← readHistoryBlocks d.blocks ls; pure ({ d with historyGen := x }, r))
+  else if kw == c!"INCON" then plain (do let (x, r) ← readIncons rf T d.incon ls; pure ({ d with incon := x }, r))
+  else if kw == c!"INDOM" then plain (do let (x, r) ← readIndom rf T d.indom ls; pure ({ d with indom := x }, r))
   else .error .keyError
 
 /-- the keyword loop of `read()`; `nxt` is a line read ahead by PARAM -/
@@ -368,7 +368,7 @@ def readLoop (rf : ReadFn) (pdat : Option (List Str)) : Nat → T2Data → Optio
     if line.isEmpty then .ok d
     else
       let kw := keywordOf line
-      if kw == k "ENDCY" || kw == k "ENDFI" then .ok { d with endKeyword := kw }
+      if kw == c!"ENDCY" || kw == c!"ENDFI" then .ok { d with endKeyword := kw }
       else if allSections.contains kw then
         match readSection rf pdat d kw line rest with
         | .error e => .error e
@@ -381,7 +381,7 @@ def readMeshfile (rf : ReadFn) : Nat → T2Data → List Str → Except Exc T2Da
   | _ + 1, d, [] => .ok d
   | fuel + 1, d, line :: rest =>
     let kw := keywordOf line
-    if kw == k "ELEME" || kw == k "CONNE" then
+    if kw == c!"ELEME" || kw == c!"CONNE" then
       match readGridSection rf mainTabs d kw rest with
       | .error e => .error e
       | .ok (d, r) => readMeshfile rf fuel { d with sections := d.sections ++ [kw] } r
